@@ -8,6 +8,7 @@ translator emits the same shapes), for ALL condition lists / element lists / sta
 -/
 import FaxVerif.Gen.FirstCorrect
 import FaxVerif.Gen.FirstFault
+import FaxVerif.Gen.GuardedFirst
 import FaxVerif.C04.Shapes
 namespace FaxVerif.C04
 open FaxVerif.Cpp FaxVerif.Linq FaxVerif.Gen
@@ -236,5 +237,47 @@ theorem event_first_empty_loud (B : Backend) (hB : BackendOK B) (nm cn : Nat →
     runEvent (compile B nm cn (.eventRows (pre ++ (name, .first c) :: post))) QC.N σc QC.ev = .error (.loud firstMsg) ∧
     ∃ m, denote QC [("e", evtVal)] (colQ "e" (.first c)) = .error (.loud m) :=
   eventRows_first_empty_loud B hB nm cn hinj hcinj hres hcres hdisj QC hcollT pre name c post hhyp hc σc hσ vs hpre hempty
+
+end FaxVerif.C04
+
+namespace FaxVerif.C04
+open FaxVerif.Cpp FaxVerif.Linq FaxVerif.Gen
+variable {D : Type}
+
+/-- **C04.guarded_first_safe** — the guard idiom `d if c.Count() == 0 else c.First()`, as the
+translator lowers it (`Gen.guardedFirst`: Count loop, `if (acc == 0) { r = d; } else { First idiom }`),
+NEVER throws: from any state, for every chain, event and number model, it terminates normally with
+`r` holding the default when the chain keeps no element and the first kept element otherwise, and
+touches nothing but its own generated names. (Never spurious: the `throw` of the First idiom is
+unreachable behind the guard.) -/
+theorem guarded_first_safe (C : Ctx D) (QC : QCtx D) (hN : QC.N = C.N) (hev : QC.ev = C.ev)
+    (B : Backend) (hB : BackendOK B) (nm : Nat → String)
+    (hinj : ∀ i j, nm i = nm j → i = j) (hres : ∀ j, nm j ≠ "result")
+    (hcollT : ∀ name, B.collType name = QC.collType name)
+    (c : Chain) (d : CExpr) (vd : Val D) (hd : ∀ σ : Env D, evalE C.N σ d = .ok vd)
+    (r : String) (hr : ∀ j, nm j ≠ r) (hrr : r ≠ "result") (n : Nat)
+    (hwt : wtSteps none c.steps = true) (hct : ChainTyped QC c) (hbv : BankIsVec QC c)
+    (ws : List (Val D)) (hchain : denote QC [("e", evtVal)] (chainQ "e" c) = .ok (.vec ws))
+    (s0 : St D) :
+    ∃ s', execs C (guardedFirst B nm c d r n) s0 = .ok s' ∧ s'.rows = s0.rows ∧
+      (ws = [] → s'.env r = some (.val vd)) ∧
+      (∀ w rest, ws = w :: rest → s'.env r = some (.val w)) ∧
+      (∀ y, y ≠ r → (∀ j, y ≠ nm j) → y ≠ "result" → s'.env y = s0.env y) :=
+  guardedFirst_safe C QC hN hev B hB nm hinj hres hcollT c d vd hd r hr hrr n hwt hct hbv ws hchain s0
+
+/-- **C04.guarded_package_correct** — the whole package for
+`ds.Select(e -> {name: d if c.Count() == 0 else c.First()})` writes exactly one row per event —
+the first kept element, or the default on an empty sequence — and never fails. The model's text
+is compared with the real translator's on every run (`guarded-tie` stream). -/
+theorem guarded_package_correct (B : Backend) (hB : BackendOK B) (nm cn : Nat → String)
+    (hinj : ∀ i j, nm i = nm j → i = j) (hcinj : ∀ i j, cn i = cn j → i = j)
+    (hres : ∀ j, nm j ≠ "result") (hcres : ∀ k, cn k ≠ "result") (hdisj : ∀ j k, nm j ≠ cn k)
+    (QC : QCtx D) (hcollT : ∀ name, B.collType name = QC.collType name)
+    (name : String) (c : Chain) (d : CExpr) (vd : Val D) (hd : ∀ σ : Env D, evalE QC.N σ d = .ok vd)
+    (hwt : wtSteps none c.steps = true) (hct : ChainTyped QC c) (hbv : BankIsVec QC c)
+    (ws : List (Val D)) (hchain : denote QC [("e", evtVal)] (chainQ "e" c) = .ok (.vec ws))
+    (σc : Env D) (hσ : (σc (cn 0)).isSome = true) :
+    ∃ σ', runEvent (compileGuarded B nm cn name c d) QC.N σc QC.ev = .ok ([[ws.head?.getD vd]], σ') :=
+  compileGuarded_correct B hB nm cn hinj hcinj hres hcres hdisj QC hcollT name c d vd hd hwt hct hbv ws hchain σc hσ
 
 end FaxVerif.C04
